@@ -47,13 +47,13 @@ VARIABLES cfg, wk, pre, order, eff, left, oleft, claims, state, bad
 vars == <<cfg, wk, pre, order, eff, left, oleft, claims, state, bad>>
 
 AllWeak == {"order", "lowest", "ready", "chargeSum", "truncFirst", "rankDearest", "rankUnavailable", "truncMin", "ovhPerPod", "ovhNone",
-            "staleHash", "simKeys", "noStartup", "noRelax", "truncMinOrder", "ovhByName", "hashSecond", "noFinalize"}
+            "staleHash", "simKeys", "noStartup", "noRelax", "truncMinOrder", "ovhByName", "hashSecond", "noFinalize", "chargeTemplate", "volShared"}
 C13Weak == {"truncMin", "truncMinOrder", "ovhPerPod", "ovhNone", "staleHash", "simKeys", "noStartup", "ovhByName", "hashSecond", "noFinalize"}     \* the rules behind C13 (b)-(d)
-AllFeats == {"plain", "taint", "prefer", "limit", "limit16", "zoneA", "teamX", "min2", "archMin2", "notReady", "startup"}
+AllFeats == {"plain", "taint", "prefer", "limit", "limit8", "limit16", "zoneA", "teamX", "min2", "archMin2", "notReady", "startup"}
 
 ----------------------------------------------------------------------------
 (* scenario space *)
-U == [zone |-> <<"a", "b", "~">>, ct |-> <<"od", "spot", "~">>, it |-> <<"T1", "T2", "T3", "~">>, team |-> <<"x", "y", "~">>,
+U == [zone |-> <<"a", "b", "c", "~">>, ct |-> <<"od", "spot", "~">>, it |-> <<"T1", "T2", "T3", "~">>, team |-> <<"x", "y", "~">>,
       arch |-> <<"amd64", "arm64", "~">>, pool |-> <<"P1", "P2", "P3", "~">>, host |-> <<"~">>, rid |-> <<"~">>]
 UNum == [k \in DOMAIN U |-> [i \in DOMAIN U[k] |-> NoInt]]
 Custom == {"team"}
@@ -84,7 +84,7 @@ Pool(n, w, f) ==
      labels |-> (IF f = "teamX" THEN [team |-> "x"] ELSE <<>>),
      taints |-> (CASE f = "taint" -> <<Dedicated>> [] f = "prefer" -> <<Soft>> [] OTHER -> <<>>),
      startup |-> (IF f = "startup" THEN <<Startup>> ELSE <<>>),
-     limits |-> [cpu |-> (CASE f = "limit" -> 2000 [] f = "limit16" -> 16000 [] OTHER -> 0), mem |-> 0, nodes |-> -1],
+     limits |-> [cpu |-> (CASE f = "limit" -> 2000 [] f = "limit8" -> 8000 [] f = "limit16" -> 16000 [] OTHER -> 0), mem |-> 0, nodes |-> -1],
      types |-> <<>>, notReady |-> (f = "notReady"), deleting |-> FALSE, replicas |-> 0,
      hashAnn |-> (IF f = "startup" THEN "stale" ELSE "")]
 PoolNamesSeq == <<"P1", "P2", "P3">>
@@ -103,6 +103,8 @@ Arch(a, name) ==
       [] a = 6 -> [P0(name, 500) EXCEPT !.terms = <<<<E("team", "In", <<"x">>)>>, <<E("zone", "In", <<"b">>)>>>>]   \* two OR-terms
       [] a = 7 -> [P0(name, 500) EXCEPT !.pref = <<[weight |-> 10, exprs |-> <<E("zone", "In", <<"b">>)>>]>>]         \* PREFERS zone b
       [] a = 8 -> [P0(name, 500) EXCEPT !.sel = [arch |-> "arm64"]]                                                    \* arm64 only (T2)
+      [] a = 9 -> [P0(name, 1500) EXCEPT !.sel = [arch |-> "amd64"]]                                                   \* amd64 only (T1, T3: never the largest type)
+      [] a = 10 -> [P0(name, 500) EXCEPT !.vols = <<"c-cb">>]           \* a volume with two topology alternatives: zone c (no type lives there) | zone b
 PodName(i) == "w" \o ToString(i)
 Batches == {s \in [1..NPods -> PodArchs] : \A i \in 1..(NPods - 1) : s[i] <= s[i + 1]}
 
@@ -119,7 +121,10 @@ Scenario(wv, fs, cat, dm, batch, mt, pol) ==
      universe |-> U, unum |-> UNum,
      options |-> [preference |-> "Respect", minValues |-> pol, reserved |-> "strict", workers |-> 1, maxTypes |-> mt, create |-> TRUE],
      types |-> Catalog(cat), pools |-> [i \in 1..3 |-> Pool(PoolNamesSeq[i], WeightPerms[wv][i], fs[i])],
-     nodes |-> <<>>, ds |-> DaemonSet(dm), scs |-> <<>>, pvs |-> <<>>, pvcs |-> <<>>,
+     nodes |-> <<>>, ds |-> DaemonSet(dm),
+     scs |-> <<[name |-> "sc-cb", provisioner |-> "csi.example", mode |-> "WaitForFirstConsumer",
+                topologies |-> <<<<[key |-> "zone", vals |-> <<"c">>]>>, <<[key |-> "zone", vals |-> <<"b">>]>>>>]>>,
+     pvs |-> <<>>, pvcs |-> <<[name |-> "c-cb", ns |-> "default", pv |-> "", sc |-> "sc-cb"]>>,
      pods |-> [i \in 1..NPods |-> Arch(batch[i], PodName(i))]]
 FeatVecs == IF FeatDiag THEN {f \in [1..3 -> Feats] : Cardinality({i \in 1..3 : f[i] # "plain"}) <= 1} ELSE [1..3 -> Feats]
 ScenarioSpace == {Scenario(wv, fs, cat, dm, b, mt, pol) : wv \in WeightVecs, fs \in FeatVecs, cat \in Catalogs, dm \in DaemonSets,
@@ -188,12 +193,27 @@ QOf(n) == PoolByName(cfg, n)
 MechTolerates(e, q) == \A t \in Range(q.taints) : \E x \in Range(e.tol) : Tolerates(x, t)
 
 \* add pod k (current form e) to requirements reqs / options its (a set of names) holding pods ks, in pool q
-Narrow(q, reqs, its, ks, k, e, lft, fresh) ==
-    LET nr == MeetMap(reqs, PodReqs(e))
+\* volume-topology alternatives of the pod as requirement maps, in order (no constrained volume: one alternative that admits everything)
+AltsOf(e) ==
+    IF e.vols = <<>> THEN <<ReqsOfExprs(<<>>)>>
+    ELSE LET tops == ScOf(cfg, PvcOf(cfg, e, e.vols[1]).sc).topologies IN [i \in DOMAIN tops |-> ReqsOfExprs(<<E("zone", "In", tops[i][1].vals)>>)]
+RECURSIVE CumAlt(_, _)
+CumAlt(A, i) == IF i = 1 THEN A[1] ELSE MeetMap(CumAlt(A, i - 1), A[i])
+NarrowAlt(q, base, its, ks, k, e, lft, fresh, alt) ==
+    LET nr == MeetMap(base, alt)
         keep == {n \in its : LET it == TypeByName(cfg, n) IN
                              /\ (fresh => MechWithin(q, it, lft))
                              /\ ItCompat(it, nr) /\ Fits(q, it, nr, OrigPods(ks) \cup {Orig(k)})}
     IN [ok |-> MechTolerates(e, q) /\ AllNonEmpty(nr) /\ keep # {} /\ Floor(q, {TypeByName(cfg, n) : n \in keep}), reqs |-> nr, its |-> keep]
+\* CanAdd: the alternatives are tried in order on a PRIVATE copy of the requirements each; the first admissible one wins
+\* (weak "volShared": one shared copy - every alternative tried before leaves its zone behind)
+Narrow(q, reqs, its, ks, k, e, lft, fresh) ==
+    LET base == MeetMap(reqs, PodReqs(e))
+        A == AltsOf(e)
+        R(i) == NarrowAlt(q, base, its, ks, k, e, lft, fresh, IF wk = "volShared" THEN CumAlt(A, i) ELSE A[i])
+        I == {i \in DOMAIN A : R(i).ok}
+    IN IF Len(A) = 1 THEN NarrowAlt(q, base, its, ks, k, e, lft, fresh, A[1])
+       ELSE IF I = {} THEN [ok |-> FALSE, reqs |-> base, its |-> {}] ELSE R(MinOf(I))
 Fresh(k, e, pn) == Narrow(QOf(pn), pre.treqs[pn], {t.name : t \in PoolTypes(cfg, QOf(pn))}, <<>>, k, e, left[pn], TRUE)
 
 \* template order: by weight, heaviest first; equal weights in any order (the code breaks ties by name - the statement leaves them free)
@@ -214,15 +234,19 @@ Relevant(w, c) ==
         labelled == \E q \in P : q.labels # <<>>
         twins == \E i, j \in DOMAIN c.ds : i # j /\ c.ds[i].name = c.ds[j].name
         armPod == \E p \in Range(c.pods) : "arch" \in DOMAIN p.sel
-        plain == ~notReady /\ ~startup /\ ~limit16 /\ ~itMin /\ ~archMin /\ ~labelled /\ ~twins /\ ~armPod
+        limit8 == \E q \in P : q.limits.cpu = 8000
+        volPod == \E p \in Range(c.pods) : p.vols # <<>>
+        plain == ~notReady /\ ~startup /\ ~limit16 /\ ~limit8 /\ ~itMin /\ ~archMin /\ ~labelled /\ ~twins /\ ~armPod /\ ~volPod
         mt == c.options.maxTypes
-        only(x) == x /\ ~twins /\ ~armPod
+        only(x) == x /\ ~twins /\ ~armPod /\ ~volPod
     IN CASE w = "ready" -> only(notReady)
          [] w \in {"staleHash", "noStartup"} -> only(startup)
          [] w = "chargeSum" -> only(limit16)
          [] w = "truncMin" -> only(itMin) /\ mt = 1
          [] w = "truncMinOrder" -> only(archMin) /\ mt = 2
          [] w = "hashSecond" -> only(labelled) /\ mt = 2
+         [] w = "chargeTemplate" -> limit8 /\ armPod /\ ~twins /\ ~volPod /\ mt = 2
+         [] w = "volShared" -> volPod /\ ~notReady /\ ~startup /\ ~limit16 /\ ~limit8 /\ ~itMin /\ ~archMin /\ ~labelled /\ ~twins /\ ~armPod /\ mt = 2
          [] w = "ovhByName" -> twins /\ armPod /\ ~notReady /\ ~startup /\ ~limit16 /\ ~itMin /\ ~archMin /\ ~labelled /\ mt = 2
          [] w \in {"truncFirst", "rankDearest"} -> plain /\ mt = 2
          [] w = "rankUnavailable" -> plain /\ mt = 1
@@ -259,7 +283,10 @@ OpenNew(k, ok) ==
         /\ (wk # "lowest" => \A j \in ok : i <= j)
         /\ LET pn == order[i]
                r == Fresh(k, eff[k], pn)
-               cap == IF wk = "chargeSum" THEN SumCap(r.its) ELSE MaxCap(r.its)
+               \* (weak "chargeTemplate": charged BEFORE the pod narrowed the NodeClaim - with the largest type of the pool that is inside the limits)
+               cap == IF wk = "chargeSum" THEN SumCap(r.its)
+                      ELSE IF wk = "chargeTemplate" THEN MaxCap({t.name : t \in {x \in PoolTypes(cfg, QOf(pn)) : MechWithin(QOf(pn), x, left[pn])}})
+                      ELSE MaxCap(r.its)
            IN /\ claims' = Append(claims, [idx |-> Len(claims), pool |-> pn, pods |-> <<k>>, reqs |-> r.reqs, its |-> SeqOf(r.its),
                                            taints |-> QOf(pn).taints, reserved |-> <<>>])
               /\ left' = [left EXCEPT ![pn] = [cpu |-> @.cpu - cap.cpu, mem |-> @.mem - cap.mem, nodes |-> @.nodes - 1]]
